@@ -186,6 +186,9 @@ def install(reg):
             return lambda I, o, a, k: (rstrip(lstrip(o, a[0]), a[0]) if a and isinstance(a[0], str) else o)
         if name == 'upper':
             return lambda I, o, a, k: o if all(not isinstance(t, str) or t.upper() == t for t in flat(o)) else OpaqueStr(['upper', o])
+        if name == 'isdigit' and obj.parts[:1] == ['str'] and len(obj.parts) == 2 and is_sym_int(obj.parts[1]):
+            # str(n).isdigit(): decimal digits only, i.e. no minus sign
+            return lambda I, o, a, k: o.parts[1] >= 0
         if name == 'startswith':
             def sw(I, o, a, k):
                 toks = merge(flat(o))
